@@ -2,7 +2,8 @@
 // NewKeccak256 / NewSHA3_256 runs in gnark's test engine (and, with -r1cs, as compiled R1CS for a
 // few lengths) with the digest from golang.org/x/crypto/sha3 as expected output: it must accept
 // it and reject a digest with one flipped bit.  Lines are in the format of corr04
-//   spec <domain> <hex message>  =>  <hex digest>          (answered by the Lean gadget specification)
+//
+//	spec <domain> <hex message>  =>  <hex digest>          (answered by the Lean gadget specification)
 package main
 
 import (
